@@ -27,6 +27,11 @@ enum MapOp {
     Clear,
     /// read guard held while reading another key (recursive shared access on possibly one shard)
     GetWhileHolding(u8, u8),
+    TryGet(u8),
+    TryGetMutAdd(u8, u32),
+    /// try_get_mut of b while a read guard on a is alive (Locked iff both live in one shard)
+    TryGetMutWhileHolding(u8, u8),
+    RemoveIfOdd(u8),
 }
 
 #[derive(Clone, Debug)]
@@ -54,7 +59,13 @@ fn gen_map_ops(rng: &mut Rng, n: usize) -> Vec<MapOp> {
                 14 => MapOp::Contains(k),
                 15..=16 => MapOp::IterSorted,
                 17 => MapOp::Len,
-                18 => MapOp::GetWhileHolding(k, rng.below(6) as u8),
+                18 => match rng.below(5) {
+                    0 => MapOp::GetWhileHolding(k, rng.below(6) as u8),
+                    1 => MapOp::TryGet(k),
+                    2 => MapOp::TryGetMutAdd(k, rng.below(10) as u32),
+                    3 => MapOp::TryGetMutWhileHolding(k, rng.below(6) as u8),
+                    _ => MapOp::RemoveIfOdd(k),
+                },
                 _ => MapOp::Clear,
             }
         })
@@ -109,6 +120,30 @@ macro_rules! run_map {
                     let other = m.get(b).map(|r| *r.value());
                     out.push(format!("{:?}/{:?}", g.map(|r| *r.value()), other));
                 }
+                MapOp::TryGet(k) => {
+                    let r = m.try_get(k);
+                    out.push(format!("{}/{}/{:?}", r.is_present(), r.is_locked(), r.try_unwrap().map(|x| *x.value())));
+                }
+                MapOp::TryGetMutAdd(k, d) => {
+                    let r = m.try_get_mut(k);
+                    let desc = format!("{}/{}", r.is_present(), r.is_absent());
+                    let v = r.try_unwrap().map(|mut x| {
+                        *x.value_mut() += *d;
+                        *x
+                    });
+                    out.push(format!("{}/{:?}", desc, v));
+                }
+                MapOp::TryGetMutWhileHolding(a, b) => {
+                    let g = m.get(a);
+                    let r = m.try_get_mut(b);
+                    // whether two keys share a shard depends on the (unspecified) hashing: only the
+                    // outcomes that do not depend on it are compared
+                    let same_key = a == b;
+                    let desc = if g.is_some() && same_key { format!("locked={}", r.is_locked()) } else { "shard-dependent".to_string() };
+                    drop(r);
+                    out.push(format!("{:?}/{}", g.map(|x| *x.value()), desc));
+                }
+                MapOp::RemoveIfOdd(k) => out.push(format!("{:?}", m.remove_if(k, |_, v| v % 2 == 1))),
             }
         }
         out
